@@ -182,17 +182,26 @@ CLAIMS = {
         technique="Lean 4 proof (functional model) + differential correspondence re-used vs fresh context",
         ref="DESIGN.md section 6 C19"),
     "C12": dict(
-        text="The model keeps ONE structure (inductive trees with ids: children and attributes), so parent/child/sibling views agree by "
-             "construction; kernel-checked: inserting a node beneath itself or a descendant is refused for every state, a refused call "
-             "changes nothing. Monitor (the deciding part for the real code's REDUNDANT state — child vectors, parent ids, id map): after "
-             "every step of every history, for every live node, parent_node vs child_nodes, first/last child, previous/next sibling, "
-             "has_child, no node twice or beneath itself, detached roots without parent, at most one document element/doctype, read "
-             "from the real navigation views. Tie: status and tree dump equal the model's after every step.",
-        note="Partial proof: preservation of id-distinctness by every operation (`inv_step`, `inv_history`) is stated in DESIGN.md and not "
-             "yet proved; the model's agreement with the code is established on the histories of each run. Foreign documents and "
+        text="Kernel-checked by induction over the history, for EVERY parsed document and EVERY sequence of the model's 25 DOM "
+             "operations, successful or refused: every node id occurs exactly once in the forest of document tree and detached trees "
+             "(`no_node_twice`; invariant `Inv`, preserved by each operation `step_grow`, established by the initial numbering "
+             "`buildSt_inv`); hence the parent view and the child-list view agree in every reachable state "
+             "(`views_agree_after_any_history`), a removed node and every detached root have no parent, no node lies beneath itself, "
+             "a move loses and duplicates nothing (`insert/remove/replace_preserves_nodes`, as multiset equalities), inserting a node "
+             "beneath itself is refused, and the document keeps at most one element child and one document type child "
+             "(`one_element_one_doctype`, second invariant `DocInv`). Monitor (the deciding part for the real code's REDUNDANT state - "
+             "child vectors, parent ids, id map): after every step of every history, for every live node, parent_node vs child_nodes, "
+             "first/last child, previous/next sibling, has_child, no node twice or beneath itself, detached roots without parent, at "
+             "most one document element/doctype, read from the real navigation views. Tie: status and tree dump equal the model's "
+             "after every step.",
+        note="The theorems are about the model's single forest; the code's redundant representation is tied per run (monitor + dump). "
+             "`OneRoot d` (at most one element and one document type at top level) is a hypothesis on the initial document: the element "
+             "half is proved for `absDocument`, the document-type half depends on the translated `prolog` production. Sibling "
+             "navigation (previous/next) is read off the child list in the model and not separately stated. Foreign documents and "
              "document fragments are not in the generated histories. Trusted: Lean kernel, model Dom.lean, harness `dom`.",
-        technique="Lean 4 proof (partial) + monitor on the implementation's navigation views + differential correspondence of edit histories",
-        ref="DESIGN.md section 6 C12"),
+        technique="Lean 4 proof (invariant by induction over operation sequences; counting lemmas over the forest) + monitor on the "
+                  "implementation's navigation views + differential correspondence of edit histories",
+        ref="DESIGN.md section 0 and section 6 C12"),
     "C13": dict(
         text="Kernel-checked for EVERY state and EVERY call of the model (25 operations): a call that fails with any exception, or by the "
              "recorded factory panic, leaves the document tree and all detached trees exactly as they were. The model `Dom.step` is the "
@@ -200,8 +209,13 @@ CLAIMS = {
              "exception classes and their order). Tie/monitor: histories with receivers/arguments of every kind and position and "
              "markup-significant strings: no panic, failed call leaves the dump unchanged, status and full dump (with node identities) "
              "equal the model's after every call.",
-        note="The per-operation effect statements are the model's definitions (checked against the code by the tie), not separately "
-             "characterised yet. `normalize`, document fragments and foreign documents are not generated. Known finding factory-panic.",
+        note="EFFECT theorems (Thm/C13Effect.lean, for every state satisfying the C12 invariant, i.e. every state reachable from a "
+             "parsed document): after insertBefore/appendChild the parent's child ids are its former children without the new child, "
+             "in order, with the new child in front of the reference child / at the end, and the new child reports that parent; after "
+             "removeChild the parent keeps its other children in order and the removed subtree is a detached root without parent. "
+             "The effects of the attribute and data operations are the model's definitions (checked against the code by the tie), not "
+             "separately characterised. `normalize`, document fragments and foreign documents are not generated. Known finding "
+             "factory-panic.",
         technique="Lean 4 proof (case analysis over all operations) + differential correspondence with full state dumps after every call",
         ref="DESIGN.md section 6 C13"),
     "C14": dict(
